@@ -6,8 +6,8 @@
 
   * `Affine`            kurbo::Affine ([a b c d e f], x' = a·x + c·y + e, y' = b·x + d·y + f; `comp` = kurbo `A * B`)
   * `resolveWith tr`    the full outline of a glyph through its components; `resolve` (= TrueType composite
-                        semantics: transform the points) and `resolveO` (orientation-corrected: a contour that
-                        went through a negative-determinant transform is reversed, ufo2ft/fontc convention)
+                        semantics: transform the points) and `resolveO` (orientation-corrected: a contour whose
+                        accumulated transform has a negative determinant is reversed, ufo2ft/fontc convention)
   * `flattenInst`       flatten_glyph (glyph.rs:596)
   * `decomposeInst`     convert_components_to_contours (glyph.rs:422), breadth first exactly like the VecDeque
   * `inlineInst`        flatten_non_export_components_for_glyph (glyph.rs:289)
@@ -122,8 +122,19 @@ def resolveWith (tr : Affine → Contour → Contour) (G : Env) : Nat → String
 
 /-- What a TrueType rasteriser draws: component points are transformed, point order kept. -/
 def resolve := resolveWith applyC
-/-- Orientation-corrected outline (what full decomposition produces). -/
-def resolveO := resolveWith orient
+
+/-- The same walk with the accumulated transform carried down (the form convert_components_to_contours uses:
+    `component_affine` is the product of the transforms on the path, glyph.rs:142, 451). -/
+def resolveAcc (tr : Affine → Contour → Contour) (G : Env) : Nat → Affine → String → List Contour
+  | 0, _, _ => []
+  | fuel + 1, T, n =>
+    match G n with
+    | none => []
+    | some i => i.contours.map (tr T) ++ i.comps.flatMap fun c => resolveAcc tr G fuel (T.comp c.t) c.base
+
+/-- Orientation-corrected outline: every contour under its accumulated transform, reversed iff that transform's
+    determinant is negative. This is exactly what full decomposition produces (`decompose_oriented`). -/
+def resolveO (G : Env) (fuel : Nat) (n : String) : List Contour := resolveAcc orient G fuel Affine.id n
 
 /-- Advance of a glyph: its own, never a component's. -/
 def advanceOf (G : Env) (n : String) : Option Rat := (G n).map (·.advance)
